@@ -100,6 +100,10 @@ func TestVerifC14(t *testing.T) {
 					// answer to a HEAD request: the resource's length is declared, no body follows
 					w.Header().Set("Content-Length", strconv.FormatInt(vInt(hl), 10))
 				}
+				for _, st := range vList(c["interim"]) {
+					// informational responses ahead of the final one (100 Continue, 102, 103 Early Hints)
+					w.WriteHeader(int(vInt(st)))
+				}
 				w.WriteHeader(respStatus)
 				for _, ch := range respChunks {
 					w.Write(ch)
@@ -125,6 +129,9 @@ func TestVerifC14(t *testing.T) {
 			if _, ok := c["head_len"]; ok {
 				req = httptest.NewRequest(http.MethodHead, "/", nil)
 			}
+			if vBool(c["expect_continue"]) {
+				req.Header.Set("Expect", "100-continue")
+			}
 			if vBool(c["offer_upgrade"]) {
 				// the client OFFERS a protocol upgrade; the target declines and answers normally: nothing is upgraded, the
 				// exchange is buffered and limited like any other
@@ -140,7 +147,11 @@ func TestVerifC14(t *testing.T) {
 			}
 			// The error-page middleware normally turns SetErrorResponse into a
 			// response; without it the fallback http.Error is used.
-			target.SendRequest(w, r2)
+			// (a real server passes informational responses on and keeps waiting for the final status; the recorder
+			// would take the first WriteHeader for the status: they are recorded apart)
+			iw := &vC14Interim{ResponseRecorder: w}
+			target.SendRequest(iw, r2)
+			res["interim_seen"] = iw.interim
 			res["status"] = w.Code
 			res["body"] = vHex(w.Body.Bytes())
 			res["flushed"] = w.Flushed
@@ -232,4 +243,19 @@ func TestVerifC14(t *testing.T) {
 		}
 		out.emit(res)
 	}
+}
+
+// vC14Interim: a client-side recorder that, like a real connection, keeps informational responses (1xx other than 101)
+// apart from the final status.
+type vC14Interim struct {
+	*httptest.ResponseRecorder
+	interim []int
+}
+
+func (w *vC14Interim) WriteHeader(code int) {
+	if code >= 100 && code <= 199 && code != http.StatusSwitchingProtocols {
+		w.interim = append(w.interim, code)
+		return
+	}
+	w.ResponseRecorder.WriteHeader(code)
 }
